@@ -424,6 +424,28 @@ pub fn configs(thorough: bool) -> Vec<Config> {
         "c4 c3 g7 g6",
         None,
     ));
+    // 10b. funnel: capture on step 1 (rabbit pushed into c3), the turn is ended by its FOURTH step, then E e4/e5 and d g7/g6 shuffle
+    v.push(funnel(
+        cfg(
+            "funnel capture early, turn ended by 4th step: Gold E b4 pushes r c4 into c3 (captured), walks c4-d4-e4; then E e4/e5 and d g7/g6 shuffle",
+            [
+                "               r ",
+                "             d   ",
+                "     x     x     ",
+                "                 ",
+                "   E r           ",
+                "     x     x     ",
+                "                 ",
+                "               R ",
+            ],
+            true,
+            "e4 e5",
+            "g7 g6",
+            None,
+        ),
+        "c4 d4 e4",
+        "c3 g7 g6",
+    ));
     // 11. repetition play right after a real setup phase (history starts with the entry written by the 32nd placement)
     {
         let mut c = cfg(
